@@ -8,6 +8,8 @@ def get(name):
         name, twin = name[:-5], True
     if name == "stream":
         from .stream import stream_harness as fn
+    elif name == "hist":
+        from .hist import h_hist as fn
     else:
         from . import lemmas
         fn = getattr(lemmas, "h_" + name)
